@@ -162,6 +162,23 @@ PROPS = {
         assumptions=["the document abstraction (definition labels in block-phase order, reference events in inline-phase order with image/host flags) is observed on the real parse by probes, not derived in Lean",
                      "FootnoteIDPrefixFunction (a per-node prefix callback) is outside the modelled configuration; a constant IDPrefix is covered"],
     ),
+    "C09": dict(
+        level="other",
+        module="GM.Props.C09",
+        claim="Partial, by design. Kernel-checked (second half of the property): the link reference map is first-wins over normalised labels; moving "
+              "a block of definitions whose normalised labels are defined nowhere else leaves every lookup and every resolved use unchanged; labels that "
+              "normalise equally resolve equally; plus obligations over facts REGENERATED from /repo: Parse completes the block phase before the inline "
+              "phase, the map is written only by parseLinkReferenceDefinition and read only by the link parser. Searched, not proved (first half): "
+              "independence of neighbouring closed blocks - A + heading + B against the parts - and definitions moved top <-> bottom on the real library.",
+        note="Trusted: Lean kernel; gmgen's syntactic phase/call-site facts; the model of util.ToLinkReference (tied by the util correspondence, C19). "
+             "The block driver (open-block stack, context keys reset on close) is not modelled.",
+        technique="Lean 4 theorems over a model of the reference map + kernel-checked obligations over regenerated phase facts; metamorphic search (A+h+B, moved definitions)",
+        components=["indep"],
+        explanation="Proved for all definition lists / uses in the reference-map model; facts re-extracted each run; searched: pairs (A,B) without '[' "
+                    "and CR where A does not end inside a code/HTML block (checked on the real parse), and documents with fresh definitions moved from top to bottom, "
+                    "referenced in case/whitespace variants, core and GFM.",
+        assumptions=["the block driver unwinds closed blocks completely (searched, not proved)"],
+    ),
 }
 
 # Properties not claimed yet, with the reason shown in MANIFEST.not_applicable.
